@@ -18,6 +18,7 @@ import (
 //	[64,80)   target of memory.fill (fill byte = current low byte of the store cell)
 //	[96,112)  target of memory.copy from [0,16)
 //	[112,120) written by the host functions of module "env" THROUGH THE api.Module THEY ARE HANDED
+//	[256,504) fd_readdir windows, bufused values, cursor and previous cookie of `ls`
 //	[128,208) WASI scratch, initialised by active data segment 2 (iovecs, path "f")
 //	[65536..) marker written by `grow` into the first grown page
 //
@@ -43,6 +44,14 @@ const (
 	aClk1   = 192
 	aRand   = 200
 	aMarker = 65536
+	// fd_readdir windows of `ls`
+	aDirA   = 256 // 64 bytes: re-read from the cookie of the previous ls's last window
+	aDirB   = 320 // 64 bytes: window at the cursor
+	aDirC   = 384 // 64 bytes: continuation from the d_next of the last complete entry of window B
+	aDirD   = 448 // 24 bytes: window at the end of what was listed so far
+	aDirU   = 480 // 4 x i32 bufused
+	aDirCur = 496 // i32 cursor (entries listed so far)
+	aDirPrv = 500 // i32 cookie of the previous ls's last window
 )
 
 // opNames is the per-instance alphabet, in enumeration order.
@@ -61,9 +70,10 @@ var opNames = []string{
 	"open",     // path_open(3,"f",read-only) then fd_read(4, 4 bytes -> [160,164)); returns e1<<16|fd<<8|e2
 	"close",    // fd_close(4)
 	"renumber", // fd_renumber(4 -> 5)
-	"host",     // calls the five functions of the shared host module "env" (every definition style) with v=mem32[8]; returns a fold
-	"entropy",  // clock_time_get(realtime), clock_time_get(monotonic), random_get(8): returns a digest
-	"exit",     // proc_exit(3)
+	"host",     // calls the five functions of the shared host module "env" (every definition style) with v=mem32[8], then
+	//             clock_time_get(realtime), clock_time_get(monotonic), random_get(8) (default per-instance sources); returns a fold
+	"ls",   // four fd_readdir(3) calls walking the instance's mount in small windows (see lsBody); returns a fold
+	"exit", // proc_exit(3)
 }
 
 // hostFuncNames are the exports of the host module "env" that every instance imports: one per definition style.
@@ -83,6 +93,7 @@ func guestModule(variant int) []byte {
 	procExit := m.ImportFunc(w, "proc_exit", []byte{i32}, nil)
 	clockGet := m.ImportFunc(w, "clock_time_get", []byte{i32, i64, i32}, []byte{i32})
 	randomGet := m.ImportFunc(w, "random_get", []byte{i32, i32}, []byte{i32})
+	fdReaddir := m.ImportFunc(w, "fd_readdir", []byte{i32, i32, i32, i64, i32}, []byte{i32})
 	var hostFns []uint32
 	for _, n := range hostFuncNames {
 		hostFns = append(hostFns, m.ImportFunc("env", n, []byte{i32}, []byte{i32}))
@@ -165,16 +176,58 @@ func guestModule(variant int) []byte {
 				I32Const(aStore).Mem(0x28, 2, 0).Call(f).Op(0xad).
 				Op(0x7c).LocalSet(0)
 		}
+		// ... then the default clocks and random source of the instance
+		a.I32Const(0).I64Const(0).I32Const(aClk0).Call(clockGet).Drop().
+			I32Const(1).I64Const(0).I32Const(aClk1).Call(clockGet).Drop().
+			I32Const(aRand).I32Const(8).Call(randomGet).Drop()
+		for _, ad := range []int32{aClk0, aClk1, aRand} {
+			a.LocalGet(0).I64Const(31).Op(0x7e).I32Const(ad).Mem(0x29, 3, 0).Op(0x7c).LocalSet(0)
+		}
 		def("host", []byte{i64}, a.LocalGet(0))
 	}
-	// entropy
-	def("entropy", nil, (&wb.Asm{}).
-		I32Const(0).I64Const(0).I32Const(aClk0).Call(clockGet).Drop().
-		I32Const(1).I64Const(0).I32Const(aClk1).Call(clockGet).Drop().
-		I32Const(aRand).I32Const(8).Call(randomGet).Drop().
-		I32Const(aClk0).Mem(0x29, 3, 0).I64Const(31).Op(0x7e).
-		I32Const(aClk1).Mem(0x29, 3, 0).Op(0x7c).I64Const(31).Op(0x7e).
-		I32Const(aRand).Mem(0x29, 3, 0).Op(0x7c))
+	// ls: locals 0:i64 h, 1:i32 cur, 2:i64 dnext
+	{
+		a := &wb.Asm{}
+		mixI32 := func(f func()) {
+			a.LocalGet(0).I64Const(31).Op(0x7e)
+			f()
+			a.Op(0xad).Op(0x7c).LocalSet(0)
+		}
+		mixI64 := func(ad int32) {
+			a.LocalGet(0).I64Const(31).Op(0x7e).I32Const(ad).Mem(0x29, 0, 0).Op(0x7c).LocalSet(0)
+		}
+		a.I32Const(aDirCur).Mem(0x28, 2, 0).LocalSet(1)
+		// A: re-read the last window of the previous ls (cookie 0 the first time)
+		mixI32(func() {
+			a.I32Const(3).I32Const(aDirA).I32Const(64).I32Const(aDirPrv).Mem(0x28, 2, 0).Op(0xad).I32Const(aDirU).Call(fdReaddir)
+		})
+		// B: window at the cursor
+		mixI32(func() {
+			a.I32Const(3).I32Const(aDirB).I32Const(64).LocalGet(1).Op(0xad).I32Const(aDirU + 4).Call(fdReaddir)
+		})
+		// dnext = d_next in the header that follows the first entry of window B (its name length is at +16)
+		a.I32Const(aDirB+16).Mem(0x28, 2, 0).I32Const(63).Op(0x71).Mem(0x29, 0, uint64(aDirB+24)).LocalSet(2)
+		// C: continue from that d_next
+		mixI32(func() {
+			a.I32Const(3).I32Const(aDirC).I32Const(64).LocalGet(2).I32Const(aDirU + 8).Call(fdReaddir)
+		})
+		// D: 24-byte window at cursor+6 = the number of entries listed so far (end of the cached window)
+		mixI32(func() {
+			a.I32Const(3).I32Const(aDirD).I32Const(24).LocalGet(1).I32Const(6).Op(0x6a).Op(0xad).I32Const(aDirU + 12).Call(fdReaddir)
+		})
+		a.I32Const(aDirPrv).LocalGet(1).I32Const(6).Op(0x6a).Mem(0x36, 2, 0)
+		a.I32Const(aDirCur).LocalGet(1).I32Const(9).Op(0x6a).Mem(0x36, 2, 0)
+		mixI64(aDirU)
+		mixI64(aDirU + 8)
+		for _, b := range []int32{aDirA, aDirB, aDirC} {
+			for _, off := range []int32{0, 16, 24, 48, 56} { // d_next, namlen/type, names (d_ino at +8 is left to the memory CRC)
+				mixI64(b + off)
+			}
+		}
+		mixI64(aDirD)
+		mixI64(aDirD + 16)
+		def("ls", []byte{i64, i32, i64}, a.LocalGet(0))
+	}
 	// exit
 	def("exit", nil, (&wb.Asm{}).I32Const(3).Call(procExit).I64Const(0))
 
@@ -185,7 +238,7 @@ func guestModule(variant int) []byte {
 		load()
 		p.Op(0x7c).LocalSet(0)
 	}
-	for _, a := range []int32{0, 8, aInit, aInit + 8, aFill, aFill + 8, aCopy, aCopy + 8, aHostW1, aRdBuf, aFD, aClk0, aClk1, aRand} {
+	for _, a := range []int32{0, 8, aInit, aInit + 8, aFill, aFill + 8, aCopy, aCopy + 8, aHostW1, aDirA + 24, aDirB + 24, aDirC + 24, aDirD, aDirCur, aRdBuf, aFD, aClk0, aClk1, aRand} {
 		a := a
 		mix(func() { p.I32Const(a).Mem(0x29, 0, 0) })
 	}
